@@ -8,7 +8,7 @@ TIE = "Tie.C02"
 DRIVER = "c02_driver.py"
 SHARD = 50
 THEOREMS = [
-    "C02_implied_iff_reachable", "C02_extends_strict", "C02_extends_nonstrict", "C02_sro_members",
+    "C02_implied_iff_reachable", "C02_extends_strict", "C02_extends_nonstrict", "C02_sro_members", "C02_sro_nodup",
     "C02_sro_coherent", "C02_fresh_fuel_irrelevant", "C02_iro_is_interface_part",
     "C02_dependents_complete", "C02_notification_order_irrelevant", "C02_acyclicb_sound",
 ]
@@ -18,7 +18,7 @@ RULE = ("histories of 3-25 operations over real InterfaceClass / Declaration / i
         "A history is non-trivial when some __bases__ reassignment hits a node that has at least two "
         "levels of dependents while the graph contains a diamond or a node with two dependents; distinct = "
         "distinct (kinds present, node-count bucket, #rebases bucket, deepest rebased dependents level, "
-        "diamond?, inconsistent C3 order seen?) signature")
+        "inconsistent C3 order / legacy fallback met?) signature")
 TRUSTED_BASE = ["Model/Ro.v transcription of ro.py / _calculate_sro (owned by C03, validated here by the "
                 "__sro__ comparison on every step)"]
 ASSUMPTIONS = ["(__name__, __module__) keys are unique among live interfaces (finding F10 is outside this check)",
@@ -226,7 +226,7 @@ def _creator(ops, handle):
 
 def generate(run, tier):
     rng = run.rng("gen")
-    n = 600 if tier == "quick" else 6000
+    n = 600 if tier == "quick" else 3000
     cases = []
     for k in range(n):
         r = rng.random()
@@ -349,6 +349,7 @@ def _facts(case, obs):
     kinds = set()
     deepest, rebases, diamond, incons = 0, 0, False, False
     for k, st in enumerate(steps):
+        incons = incons or bool(st.get("incons"))
         for p in st["ops"]:
             if p[0] == "new":
                 kinds.add(p[2])
@@ -361,25 +362,25 @@ def _facts(case, obs):
                     if _diamond_or_shared(before) or _diamond_or_shared(_graph(st["snap"])):
                         diamond = True
                         deepest = max(deepest, lv)
-    return kinds, deepest, rebases, diamond
+    return kinds, deepest, rebases, diamond, incons
 
 
 def classify(case, obs):
     if "exc" in obs:
         return None
-    kinds, deepest, rebases, diamond = _facts(case, obs)
+    kinds, deepest, rebases, diamond, incons = _facts(case, obs)
     if not (diamond and deepest >= 2):
         return None
     n = len(obs["steps"][-1]["snap"])
-    return (tuple(sorted(kinds)), min(n // 3, 5), min(rebases, 6), min(deepest, 4))
+    return (tuple(sorted(kinds)), min(n // 3, 5), min(rebases, 6), min(deepest, 4), incons)
 
 
 def kind(case, obs):
     if "exc" in obs:
         return "exception"
-    kinds, deepest, rebases, diamond = _facts(case, obs)
+    kinds, deepest, rebases, diamond, incons = _facts(case, obs)
     if diamond and deepest >= 2:
-        return "diamond/shared + rebase over >=2 dependent levels"
+        return "diamond/shared + rebase over >=2 dependent levels" + (", inconsistent C3 order met" if incons else "")
     if rebases:
         return "rebase, shallow"
     return "no rebase"
